@@ -885,13 +885,21 @@ def case_strategy(pkg, n_orders=3):
 
 SHARDS = {
     "quick": {"enum_media": 12, "enum_pairs": 3, "enum_pkg": 4, "hyp_flat": 10, "hyp_pkg": 6},
-    "thorough": {"enum_media": 16, "enum_pairs": 10, "enum_pkg": 4, "hyp_flat": 12, "hyp_pkg": 6},
+    "thorough": {"enum_media": 16, "enum_pairs": 8, "enum_pkg": 2, "hyp_flat": 14, "hyp_pkg": 7},
 }
+HYP_CHUNK = 2500  # examples per Hypothesis run inside one shard (bounds the memory of Hypothesis' choice tree)
 
 
 def plan(tier, seed, scale=1.0):
     b, sh_n = BOUNDS[tier], SHARDS[tier]
     specs = []
+    # the Hypothesis shards are the longest ones: schedule them first
+    n = max(32, int(b["hyp_examples"] * scale))
+    nflat = (n * 2) // 3
+    for sh in range(sh_n["hyp_flat"]):
+        specs.append({"kind": "hyp", "pkg": 0, "n": max(1, nflat // sh_n["hyp_flat"]), "seed": derive_seed(seed, "flat", sh)})
+    for sh in range(sh_n["hyp_pkg"]):
+        specs.append({"kind": "hyp", "pkg": 1, "n": max(1, (n - nflat) // sh_n["hyp_pkg"]), "seed": derive_seed(seed, "pkg", sh)})
     for sh in range(sh_n["enum_media"]):
         specs.append({"kind": "enum_media", "shard": sh, "of": sh_n["enum_media"], "nmax": b["exh_classes"], "bodies": b["exh_bodies"]})
     for sh in range(sh_n["enum_pairs"]):
@@ -899,12 +907,6 @@ def plan(tier, seed, scale=1.0):
     for sh in range(sh_n["enum_pkg"]):
         specs.append({"kind": "enum_pkg", "shard": sh, "of": sh_n["enum_pkg"]})
     specs.append({"kind": "enum_edge", "shard": 0, "of": 1})
-    n = max(32, int(b["hyp_examples"] * scale))
-    nflat = (n * 2) // 3
-    for sh in range(sh_n["hyp_flat"]):
-        specs.append({"kind": "hyp", "pkg": 0, "n": max(1, nflat // sh_n["hyp_flat"]), "seed": derive_seed(seed, "flat", sh)})
-    for sh in range(sh_n["hyp_pkg"]):
-        specs.append({"kind": "hyp", "pkg": 1, "n": max(1, (n - nflat) // sh_n["hyp_pkg"]), "seed": derive_seed(seed, "pkg", sh)})
     return specs
 
 
@@ -950,5 +952,12 @@ def run_shard(spec):
             _record(col, case, model, part)
             return fails
 
-        return hyp_search(case_strategy(bool(spec["pkg"])), check, col, max_examples=spec["n"], seed=spec["seed"], attribute=attribute)
+        done = k = 0
+        while done < spec["n"] and not col.failures and not col.errors:
+            m = min(HYP_CHUNK, spec["n"] - done)
+            sd = spec["seed"] if k == 0 else derive_seed(spec["seed"], "chunk", k)
+            hyp_search(case_strategy(bool(spec["pkg"])), check, col, max_examples=m, seed=sd, attribute=attribute)
+            done += m
+            k += 1
+        return col
     raise ValueError(kind)
